@@ -123,4 +123,19 @@ func init() {
 			"minify.Number is used through its contract (C08: shape clause proved only for the non-print returns, otherwise bounded-verified)",
 		},
 	})
+	registerProp(&PropSpec{
+		ID:     "C14",
+		Custom: []string{"partial"},
+		Partial: []string{
+			modPath + "/json.(*Minifier).Minify", modPath + "/xml.(*Minifier).Minify", modPath + "/svg.(*Minifier).Minify",
+			modPath + "/css.(*Minifier).Minify", modPath + "/html.(*Minifier).Minify", modPath + "/js.(*Minifier).Minify",
+			modPath + ".UpdateErrorPosition",
+		},
+		Notes: []string{
+			"return-site (postcondition) obligations over the ghost call trace of each package's real Minify: a nil result is returned only after a zero-length probe write w.Write(nil) that returned a nil error and after which no further write happens, and (all but js) only when the lexer/parser error equals io.EOF; errors of embedded minifiers are returned through UpdateErrorPosition, which never turns a non-nil error into nil",
+			"the six Minify functions are under PARTIAL contract: the registered obligations (the C14 posts plus every safety obligation that discharges) are claimed; the rest is undecided",
+			"A-dep: Err() of the dependency's lexers/parsers is non-nil after an error token; with A 'a failing writer keeps failing' the probe clause yields: writer failure at any write => non-nil result",
+			"not decided: reader failures (parse.NewInput / io.ReadAll semantics), the pipe/goroutine wrappers in minify.go (Reader, Writer, Close: go statements are outside the subset), 'never blocks', 'Close always returns'",
+		},
+	})
 }
